@@ -15,7 +15,8 @@ from corr import Case, compare, judge, account
 
 LEVEL = "proof"
 RULE = (execprop.RULE + "; plus submit() of the Slurm / LSF adapters on generated sbatch / bsub outputs "
-        "(documented shapes and a malformed stream) x exit codes")
+        "(documented shapes and a malformed stream) x exit codes, and of the Flux adapter on a recording "
+        "flux.job that accepts (f58 ids) or refuses (exceptions of the bindings)")
 
 
 def hx(s):
@@ -77,10 +78,53 @@ def submit_cases(ctx, n):
     return cases
 
 
+def flux_submit_cases(ctx, n):
+    """Flux hands back a job id object; the record must hold its f58 spelling, and a submission Flux
+    refuses (any exception of the bindings) must be reported as failed (monitor only: nothing is parsed)"""
+    import c16
+    from maestrowf.datastructures.core.study import StudyStep
+    rng = ctx.rng
+    ad = c16.adapters()["flux"]
+    cases = []
+    for k in range(n):
+        jid = rng.choice(["\u01922Nq8mT", "\u0192A", "f%d" % rng.randint(1, 10 ** 6), "\u0192" + "".join(
+            rng.choice("123456789ABCDEFGHJKLMNPQRSTUVWXYZabcdefghijkmnopqrstuvwxyz") for _ in range(rng.randint(2, 11)))])
+        refuse = rng.choice([None, None, None, ConnectionResetError("broker gone"), RuntimeError("job rejected"),
+                             OSError(2, "no broker"), ValueError("bad jobspec")])
+        step = StudyStep()
+        step.name = "s%d" % k
+        step.run.update({"cmd": "x", "nodes": rng.choice([1, 2, "2"]), "procs": rng.choice([1, 4, "4"])})
+        if rng.random() < 0.3:
+            step.run["nested"] = True
+        fakeenv.FLUX.submitted = []
+        fakeenv.FLUX.next_id = jid
+        fakeenv.FLUX.submit_raises = refuse
+        mon = []
+        try:
+            rec = ad.submit(step, "/w/s.sh", "/w")
+            code, got = rec.submission_code.name, rec.job_identifier
+        except Exception as e:      # noqa
+            code, got = "RAISE:" + type(e).__name__, None
+        finally:
+            fakeenv.FLUX.submit_raises = None
+        if refuse is None:
+            if code != "OK" or str(got) != jid:
+                mon.append(("submitted-job-tracked", "Flux accepted the job as %r but submit() reported %s / job id %r"
+                            % (jid, code, got)))
+        elif code == "OK" or code.startswith("RAISE"):
+            mon.append(("submitted-job-tracked", "Flux refused the job (%s) but submit() reported %s"
+                        % (type(refuse).__name__, code)))
+        ctx.count("flux-submit:" + ("accepted" if refuse is None else "refused"))
+        cases.append(Case({"kind": "flux-submit", "jobid": jid, "refused": type(refuse).__name__ if refuse else None,
+                           "run": dict(step.run)}, [], [], mon, True,
+                          key="flux-submit:%s:%s" % (jid, type(refuse).__name__)))
+    return cases
+
+
 def run(ctx, escalated=False):
     quick = ctx.tier == "quick" and not escalated
     cases = execprop.run(ctx, "C04", escalated, finish=False)
-    sub = submit_cases(ctx, 300 if quick else 5000)
+    sub = submit_cases(ctx, 300 if quick else 5000) + flux_submit_cases(ctx, 80 if quick else 1500)
     ctx.count("submit-cases", len(sub))
     cases = cases + sub
     diffs = compare(cases)
